@@ -11,24 +11,24 @@ NOTE = ("trusts the harness' own models/oracles (written from the RFC text, shar
 
 # id -> (engine, technique, design section)
 CHECKS = {
-  "C01": ("vcheck", "property-based testing: generated (schema, document) pairs (samples, near-misses, unrelated) checked against a reference implementation of the RFC 8610 set semantics (PEG arrays, declarative maps); proptest shrinking", "3/C01"),
-  "C02": ("vcheck", "property-based testing: generated (schema, data item) pairs x 3 encodings each, checked against the reference RFC 8610 semantics over the CBOR data model; metamorphic equality across encodings; proptest shrinking", "3/C02"),
+  "C01": ("vcheck", "property-based testing: generated (schema, document) pairs (samples, near-misses, unrelated) checked against a reference implementation of the RFC 8610 set semantics (PEG arrays, declarative maps); proptest shrinking ; exhaustive small scope (270 root types x 34 documents)", "3/C01"),
+  "C02": ("vcheck", "property-based testing: generated (schema, data item) pairs x 3 encodings each, checked against the reference RFC 8610 semantics over the CBOR data model; metamorphic equality across encodings; proptest shrinking ; exhaustive small scope (small grammar x 39 data items x 3 encodings)", "3/C02"),
   "C04": ("vcheck", "differential testing: generated shared-feature schemas x JSON-model documents, JSON validator vs CBOR validator verdict classes, calls isolated in worker processes; proptest shrinking", "3/C04"),
-  "C05": ("vcheck", "fuzzing-style robustness testing: grammar-sampled, mutated and random inputs to every entry point, each call in a child worker process (8 MiB stack, 4 GiB address space, per-call limit); panics / aborts / hangs are violations; growth series for the polynomial-time clause; proptest shrinking", "3/C05"),
+  "C05": ("vcheck", "fuzzing-style robustness testing: grammar-sampled, mutated and random inputs to every entry point, each call in a child worker process (8 MiB stack, 4 GiB address space, per-call limit); panics / aborts / hangs are violations; growth series for the polynomial-time clause; proptest shrinking ; thorough tier additionally runs a coverage-guided libFuzzer campaign (cargo-fuzz, ASan, oracle inside the target, committed seed corpus)", "3/C05"),
   "C06": ("vcheck", "property-based testing: grammar-sampled documents, parse->Display->parse round-trip oracle on an independent AST skeleton, idempotence, proptest shrinking", "3/C06"),
   "C07": ("vcheck", "property-based testing: literal spellings with the value known by construction (radix/sign/boundary integers, dyadic and shortest round-trip floats, hex floats, every escape form of text, h/b64/plain byte strings with embedded trivia) placed at every literal position; the AST must carry exactly that value or the text must be rejected; proptest shrinking", "3/C07"),
   "C08": ("vcheck", "metamorphic testing: 1-3 composed meaning-preserving refactorings of generated schemas (extract/inline rules, identity generics, generic substitution by hand incl. nested generics, /= and //= increments, sockets, parentheses, renaming, rule order) must keep the verdict of each validator; worker-process isolation; proptest shrinking", "3/C08"),
   "C09": ("vcheck", "metamorphic testing: boolean identities between separate validator runs (choice, .and/.within, .ne/.eq, range forms, occurrence forms, prelude definitions) in four contexts, both validators, worker-process isolation; proptest shrinking", "3/C09"),
   "C10": ("vcheck", "metamorphic testing: permutations of map pairs (CBOR encoding / JSON text) and of disjoint-key schema members must not change the verdict; repeated keys compared with the reference semantics; worker-process isolation; proptest shrinking", "3/C10"),
-  "C11": ("vcheck", "differential testing against a reference RFC 8949 decoder: exhaustive enumeration of short byte strings + structured/mutated generated encodings, proptest shrinking", "3/C11"),
+  "C11": ("vcheck", "differential testing against a reference RFC 8949 decoder: exhaustive enumeration of short byte strings + structured/mutated generated encodings, proptest shrinking ; thorough tier additionally runs a coverage-guided libFuzzer campaign (cargo-fuzz, ASan, oracle inside the target, committed seed corpus)", "3/C11"),
   "C12": ("vcheck", "property-based testing from a name plan: generated rule lists with colliding names, operators, generics, sockets and reference slots at every syntactic position; expected duplicate / undefined-reference verdicts, messages and positions computed from the plan; proptest shrinking", "3/C12"),
   "C13": ("vcheck", "differential testing against a reference mapping: generated field tables rendered as RFC 4180 text (quoting, doubled quotes, embedded separators / line breaks, CRLF/LF, ragged rows, header flag); validate_csv_from_str vs validate_json_from_str on the harness-built mapped document; proptest shrinking", "3/C13"),
-  "C15": ("vcheck", "invariant checking over generated inputs: grammar-derived documents with random blanks / CRLF / multi-byte comments and literals, plus 1-2 character edits and short token strings for the rejected side; oracle = span-tree laws (bounds, UTF-8 boundaries, line recount, containment, sibling order, identifier text, rule start) and error-position laws (in input, boundaries, line / column recount, non-inverted range); proptest shrinking", "3/C15"),
+  "C15": ("vcheck", "invariant checking over generated inputs: grammar-derived documents with random blanks / CRLF / multi-byte comments and literals, plus 1-2 character edits and short token strings for the rejected side; oracle = span-tree laws (bounds, UTF-8 boundaries, line recount, containment, sibling order, identifier text, rule start) and error-position laws (in input, boundaries, line / column recount, non-inverted range); proptest shrinking ; thorough tier additionally runs a coverage-guided libFuzzer campaign (cargo-fuzz, ASan, oracle inside the target, committed seed corpus)", "3/C15"),
   "C16": ("vcheck", "property-based testing with a metamorphic round trip: grammar-derived documents with generated comments at every S position kind (unique texts, literals containing ';', byte strings with inner comments, CRLF); oracle = all 50 AST comment slots vs an independent comment scanner of the source (only real comments, unchanged, at most once), comment multiset of the formatted text vs attached comments, and skeleton equality after re-parsing the formatted text; proptest shrinking", "3/C16"),
   "C20": ("vcheck", "model-based property testing: grammar-derived documents (small name / literal pools so identical sub-expressions recur); reference model = own AST walk listing every (child, container) pair; oracle = parent query returns the container itself (variant + address), typed Parent::parent interface, root without parent; proptest shrinking", "3/C20"),
   "C18": ("vcheck", "differential testing of the built command-line binary against in-process library calls: generated invocations (schema file, documents over --json/--cbor/--csv/--stdin, --ci, --features, --csv-header, missing files, broken schemas, rules in front of the root) with valid / near-miss documents from the semantic generator and .feature families; oracle = library verdict per document with the same bytes and features vs success / failure lines and --ci exit status; compile-cddl vs cddl_from_str on generated and mutated texts; proptest shrinking (capped)", "3/C18"),
   "C19": ("vcheck", "configuration testing plus differential testing across builds: cargo check of sampled (quick) or all 256 (thorough) feature sets; a driver built against 8-20 feature sets answers generated requests (parse + skeleton, format, JSON / CBOR / CSV validation of generated schemas with valid and near-miss documents, .pcre families) and all builds that provide the operation must agree; proptest shrinking", "3/C19"),
-  "C03": ("vcheck", "grammar-based generation and differential testing against an independent recognizer: an Earley recognizer over the ABNF text of RFC 8610 Appendix B + RFC 9682 (+ the leniencies the crate documents, registered control names), with a longest-match reading for identifiers and numbers; positive: documents printed from random derivations must be accepted and the AST skeleton must equal the derivation's; agreement: 1-2 character edits of such documents and short token strings - whatever the parser accepts must be derivable; proptest shrinking", "3/C03"),
+  "C03": ("vcheck", "grammar-based generation and differential testing against an independent recognizer: an Earley recognizer over the ABNF text of RFC 8610 Appendix B + RFC 9682 (+ the leniencies the crate documents, registered control names), with a longest-match reading for identifiers and numbers; positive: documents printed from random derivations must be accepted and the AST skeleton must equal the derivation's; agreement: 1-2 character edits of such documents and short token strings - whatever the parser accepts must be derivable; proptest shrinking ; thorough tier additionally runs a coverage-guided libFuzzer campaign (cargo-fuzz, ASan, oracle inside the target, committed seed corpus)", "3/C03"),
   "C17": ("vcheck", "generated programs: schemas sampled from the documented mapping subset (maps, optional / nullable fields, arrays, tables, aliases, rule references incl. recursion, string-literal choices, hyphenated / keyword / colliding names) are compiled through cddl_typegen! in batches with the repository toolchain; valid-by-construction instances (accepted by the library validator) are deserialised into the generated root type and serialised back; oracle = compiles, same data (numbers by value), output still validates, two macro expansions in separate processes are byte-identical", "3/C17"),
   "C14": ("vcheck", "property-based testing of error reporting: non-empty error lists, JSON locations resolved against the document, distinct error kinds per fault, determinism across repetition / 8 concurrent threads / a fresh process", "3/C14"),
 }
